@@ -62,7 +62,8 @@ def gen(rng, depth, w, vars_):
     if op == 'rot':
         a, za = gen(rng, depth - 1, w, vars_)
         k = rng.randrange(0, w + 1)
-        return ir.rotl(a, k), z3.RotateLeft(za, k % w)
+        kk = k % w
+        return ir.rotl(a, k), (za if kk == 0 else z3.Concat(z3.Extract(w - kk - 1, 0, za), z3.Extract(w - 1, w - kk, za)))
     if op == 'ite':
         c, zc = gen(rng, depth - 1, 1, vars_)
         a, za = gen(rng, depth - 1, w, vars_)
@@ -121,13 +122,14 @@ def _shrsum(rng, a, za, b, zb, w, j):
     return ir.slc(n, j, w), z3.Extract(W - 1, j, z)
 
 
-def main(n=400, seed=1):
+def main(n=400, seed=1, second=True):
     rng = random.Random(seed)
     vars_ = [('a', 8), ('b', 8), ('c', 5), ('d', 1), ('e', 12), ('f', 3)]
     bad = 0
     tot = 0
     s = z3.Solver()
     s.set('timeout', 20000)
+    smt = ['(set-logic QF_BV)'] + ['(declare-const %s (_ BitVec %d))' % v for v in vars_]
     for i in range(n):
         ir.reset()
         w = rng.choice([1, 2, 3, 4, 7, 8, 9, 12])
@@ -136,6 +138,7 @@ def main(n=400, seed=1):
             tot += 1
             s.push()
             s.add(ir.lower(nd) != z)
+            smt += ['(push 1)', '(assert %s)' % (ir.lower(nd) != z).sexpr(), '(check-sat)', '(pop 1)']
             r = str(s.check())
             if r != 'unsat':
                 bad += 1
@@ -144,7 +147,35 @@ def main(n=400, seed=1):
                     print('   model', s.model())
             s.pop()
     print('  symx.irlemmas: %d rewrite obligations over %d random terms, %d failed' % (tot, n, bad))
+    if second and not bad:
+        bad += second_solver(smt, tot)
     return 1 if bad else 0
+
+
+def second_solver(smt, tot):
+    """the same obligations, as SMT-LIB text, through cvc5 (an independent solver): every answer must be unsat.
+    Skipped with a note when no cvc5 binary is on PATH."""
+    import shutil, subprocess, tempfile, os
+    exe = shutil.which('cvc5')
+    if exe is None:
+        print('  symx.irlemmas: cvc5 not found - second-solver pass skipped')
+        return 0
+    fd, path = tempfile.mkstemp(suffix='.smt2')
+    try:
+        with os.fdopen(fd, 'w') as f:
+            f.write('\n'.join(smt) + '\n')
+        try:
+            out = subprocess.run([exe, '--incremental', path], stdout=subprocess.PIPE, stderr=subprocess.STDOUT, timeout=600).stdout.decode()
+        except subprocess.TimeoutExpired:
+            print('  symx.irlemmas: cvc5 did not finish in 600 s - second-solver pass INCONCLUSIVE')
+            return 1
+    finally:
+        os.unlink(path)
+    ans = [l.strip() for l in out.splitlines() if l.strip()]
+    nun = sum(1 for l in ans if l == 'unsat')
+    other = [l for l in ans if l != 'unsat']
+    print('  symx.irlemmas: cvc5 agrees on %d/%d obligations%s' % (nun, tot, '' if not other else '; other output: %s' % other[:3]))
+    return 0 if (nun == tot and not other) else 1
 
 
 if __name__ == '__main__':
